@@ -159,6 +159,11 @@ def run_row(i, a, cnt, out):
             out["viols"].append(_viol("triangle", f"lp_dist p={p}", i,
                                       f"d(a,c)={row[c]} > d(a,b)+d(b,c)={row[b]}+{M[b, c]} with b={fam.case_to_json(_PROFS[b])}, c={fam.case_to_json(_PROFS[c])}"))
             return
+    # default p_value is 1
+    for b in (0, (a * 5 + 1) % n):
+        if lp_dist(vkit.mk_profile(_PROFS[a]), vkit.mk_profile(_PROFS[b])) != _MAT[1][a, b]:
+            out["viols"].append(_viol("defaults", "lp_dist", i, "lp_dist(p, q) without p_value differs from lp_dist(p, q, 1)"))
+            return
     # variants of profile a are at distance exactly 0
     cs, bl = _PROFS[a]
     pa = vkit.mk_profile(_PROFS[a])
